@@ -5,7 +5,7 @@ prop_config() {
     C05|C10|C13|C16|C18) RACE="-race";;
   esac
   case "$p" in
-    C10|C13|C16) INSTR="group rtpconn unbounded diskwriter token";;
+    C10|C13) INSTR="group rtpconn unbounded diskwriter token";;
   esac
 }
 
